@@ -181,6 +181,7 @@ type LdRec struct { // loader invocation
 	Cost    int64  `json:"cost"`
 	TTL     int64  `json:"ttl"`
 	Resident bool  `json:"res,omitempty"` // white-box: the key was resident and unexpired in the map when the loader was invoked
+	Unreg    bool  `json:"unreg,omitempty"` // white-box: when the loader finished, its flight was no longer registered in the singleflight group
 	ResVal  int64  `json:"resv,omitempty"`
 	Outcome string `json:"o"` // ok err panic exit
 	Token   string `json:"tok,omitempty"`
